@@ -447,7 +447,10 @@ func (mr *msgReader) Read(p []byte) (n int, err error) {
 		p = p[:n]
 		mr.dict.write(p)
 	}
-	if errors.Is(err, io.EOF) || errors.Is(err, io.ErrUnexpectedEOF) && mr.fin && mr.flate {
+	// Only the bare sentinels mark the end of the message: mr.read returns io.EOF itself once
+	// the final frame is consumed and the flate reader turns that into io.ErrUnexpectedEOF.
+	// A transport that ends mid-message surfaces as a wrapped EOF and must remain an error.
+	if err == io.EOF || err == io.ErrUnexpectedEOF && mr.fin && mr.flate {
 		mr.putFlateReader()
 		return n, io.EOF
 	}
